@@ -216,18 +216,26 @@ structure BCfg where
   detectFs : Bool
   detectSleep : Bool
   detectNet : Bool
+  /-- names the file imports from crates other than std (`use tokio::fs;` gives `fs`): a short path that
+      starts with one of them is not a std call (`_names_imported_from_other_crates`) -/
+  shadowed : List Str := []
 
 def blockEnabled (c : BCfg) : BlockPattern → Bool
   | .fs => c.detectFs | .sleep => c.detectSleep | .net => c.detectNet
 
+def isShadowed (shadowed : List Str) (parts : List Str) : Bool :=
+  match parts with
+  | a :: _ => shadowed.contains a
+  | [] => false
+
 def blockingReported (c : BCfg) (frames : List Frame) (parts : List Str) : Option BlockPattern :=
-  if !insideAsyncFn frames then none else
+  if !insideAsyncFn frames || isShadowed c.shadowed parts then none else
   match classifyPath parts with
   | some p => if insideWrapper frames || (isInsideTest frames && c.allowInTests) || !blockEnabled c p then none else some p
   | none => none
 
 def blockingSpec (c : BCfg) (frames : List Frame) (parts : List Str) : Option BlockPattern :=
-  if !insideAsyncFn frames then none else
+  if !insideAsyncFn frames || isShadowed c.shadowed parts then none else
   match classifyPath parts with
   | some p => if specInsideWrapper frames || (specInsideTest frames && c.allowInTests) || !blockEnabled c p then none else some p
   | none => none
